@@ -240,7 +240,7 @@ class C11(Prop):
         "bracket_postcondition", "brent_descends_from_its_start", "brent_nonfinite_interval_exits", "cg_value_is_objective_at_result", "cg_is_not_a_descent_method",
         # round 4
         "cg_statistics_are_of_the_proved_run", "cg_terminates_within_max_iterations", "cg_descends_unless_brent_loses_the_bracket_point",
-        "weibull_objective_is_neg_loglik", "weibull_loglik_derivatives", "weibull_fit_optimality_certificate", "weibull_stationary_is_global_maximiser_partial",
+        "weibull_objective_is_neg_loglik", "weibull_loglik_derivatives", "weibull_fit_optimality_certificate", "weibull_stationary_is_global_maximiser_partial", "weibull_stationary_point_is_unique_maximiser_partial",
         "weibull_sxp_fit_parameters_positive", "gamma_rate_is_maximiser", "truncated_gumbel_gradient_is_derivative", "exp_binned_fit_is_maximiser", "exp_binned_loglik_closed_form",
         "set_expect_fills_all_bins", "expected_tail_emin_in_range", "expected_counts_account_for_the_mass", "goodness_never_faults", "goodness_accounts_for_its_counts", "goodness_range_is_the_raw_data_above_its_threshold",
         "plot_accounts_for_data", "plot_survival_accounts_for_data", "plot_qq_in_bounds", "declare_rounding_keeps_the_data")]
@@ -257,7 +257,7 @@ class C11(Prop):
                   "FITS - exponential: (min x, 1/(mean-min)) is THE likelihood maximiser; Gumbel complete/censored/fixed-lambda: mu is the exact maximiser for the returned lambda, lawless416/422 "
                   "is the derivative of the concave profile likelihood, so an eslOK result is the global maximiser up to n*1e-5*|lambda'-lambda|; termination of every loop; log-normal closed form. "
                   "Weibull: wei_func is minus the log-likelihood, its partial derivatives, lambda = exp(w) > 0, tau = exp(v) > 0, and the log-likelihood is concave in (tau, tau*log lambda): a "
-                  "stationary point is THE global maximum and the shortfall of ANY point is bounded by its derivatives (optimality certificate). Truncated Gumbel: tevd_grad is the gradient of "
+                  "stationary point is THE global maximum, the only one, and the shortfall of ANY point is bounded by its derivatives (optimality certificate). Truncated Gumbel: tevd_grad is the gradient of "
                   "tevd_func (HasDerivAt, main branches). Gamma: lambda = tau/xbar is the maximiser in lambda for every tau, gam_nll is minus the profile likelihood. "
                   "OPTIMISERS - esl_min_ConjugateGradientDescent/bracket/brent/numeric_derivative and esl_root_Bisection/NewtonRaphson modelled line by line (any objective, numeric class): documented "
                   "status, <= max_iterations rows and <= brack_maxiter rounds per row, fx = f(x) on return, bracket post-condition, brent never worse than its start, bisection keeps the root "
